@@ -49,6 +49,54 @@ def rand_val(rng, d):
     return rng.randint(-19, 19)  # halves
 
 
+# Optional arguments of the RecordTensor operations: op kind -> {keyword: (index of its field in the op, DOCUMENTED default)}.
+# The defaults were read ONCE from the signatures / "Defaults to" lines of the docstrings of inferno/core/infrastructure.py
+# (push(obs, inplace=False); read(offset=1); write(obs, offset=0, inplace=False); incr(pos=1); decr(pos=1); align(index=0);
+# reset(fill=0); readrange(length, offset=1, forward=False); writerange(obs, offset=0, forward=False, inplace=False); pop() and
+# peek() take no arguments) and are hard-coded here on purpose: they are NOT read from the code at run time, so a changed
+# default is a disagreement with the documented behaviour.  An op whose last element is {"omit": [keywords]} is called
+# WITHOUT those keywords by the implementation side; its fields hold the documented defaults, which is what the Coq model and
+# the oracle (which never look at the trailing dict) use.  Tensor-offset ranges cannot omit the offset (that is the scalar op).
+OPTIONAL = {
+    "push": {"inplace": (4, False)},
+    "read": {"offset": (1, 1)},
+    "write": {"offset": (4, 0), "inplace": (5, False)},
+    "incr": {"pos": (1, 1)},
+    "decr": {"pos": (1, 1)},
+    "align": {"index": (1, 0)},
+    "reset": {"fill": (1, 0)},
+    "rrs": {"offset": (2, 1), "forward": (3, False)},
+    "rrt": {"forward": (4, False)},
+    "wrs": {"offset": (4, 0), "forward": (5, False), "inplace": (6, False)},
+    "wrt": {"forward": (6, False), "inplace": (7, False)},
+}
+
+
+def omit_args(op, aux, p_op=0.3, p_arg=0.6):
+    """with probability p_op: leave out a random subset of the optional arguments of this call (fields set to the
+    documented defaults).  `inplace` of a scalar-offset writerange is only left out when it already is the default (the
+    generator chose the observation dtype depending on it)."""
+    opt = OPTIONAL.get(op[0])
+    if not opt or isinstance(op[-1], dict) or aux.random() >= p_op:
+        return op
+    names = []
+    for name, (idx, default) in opt.items():
+        if aux.random() < p_arg:
+            if op[0] == "wrs" and name == "inplace" and op[idx] != default:
+                continue
+            if op[0] == "push" and name == "inplace" and "latest" in op[5:]:
+                continue
+            op[idx] = default
+            names.append(name)
+    if names:
+        op.append({"omit": names})
+    return op
+
+
+def op_omits(op):
+    return op[-1]["omit"] if isinstance(op[-1], dict) else []
+
+
 def gen_case(rng: random.Random, malformed: bool, aux: random.Random | None = None):
     """aux: independent generator for the implementation-only fields (keeps the main stream what it was)"""
     aux = aux or random.Random(0)
@@ -125,6 +173,8 @@ def gen_case(rng: random.Random, malformed: bool, aux: random.Random | None = No
             ops.append(["wrt", de, sh, [[rand_val(rng, de) for _ in range(ln)] for _ in range(nel(sh))],
                         [rng.randint(0, 2 * N) for _ in range(nel(sh))], sh, rng.random() < 0.5, rng.random() < 0.5,
                         case_odt or aux.choice(OFFSET_DTYPES)])
+    for o in ops:
+        omit_args(o, aux)
     return {"N": N, "init": init, "ops": ops, "alias": alias}
 
 
@@ -587,13 +637,17 @@ def run(ctx):
                 "readrange returned, and reuses ONE offset tensor object per (shape, dtype), updated in place, for repeated "
                 "range reads/writes of the same length and direction; the same caller behaviour in ~80% of the first stream, "
                 "incl. `latest =` / `latest` for push / peek) and a stream of observations whose dtype differs from the "
-                "record's through every write path; non-trivial = "
+                "record's through every write path; in ~30% of the calls of the first stream a random subset of the OPTIONAL "
+                "arguments (push inplace, read/write offset, write inplace, incr/decr pos, align index, reset fill, readrange "
+                "offset/forward, writerange offset/forward/inplace) is left out by the caller, the model and the oracle using the "
+                "documented defaults hard-coded in OPTIONAL; non-trivial = "
                 ">=3 ops of >=2 kinds; distinct by full case text"
                 + ("; plus every sequence of depth<=3 over a 14-op alphabet for N<=3" if exhaustive else ""),
         "op_distribution": dict(dist), "error_distribution": dict(errs),
         "N_distribution": dict(Counter(c["N"] for c in cases)),
-        "tensor_offset_dtype_distribution": dict(Counter(o[-1] for c in cases for o in c["ops"]
-                                                         if o[0] in ("rrt", "wrt") and isinstance(o[-1], str))),
+        "tensor_offset_dtype_distribution": dict(Counter(x for c in cases for o in c["ops"] if o[0] in ("rrt", "wrt")
+                                                         for x in o[5:] if isinstance(x, str) and x in OFFSET_DTYPES)),
+        "omitted_optional_arguments": dict(Counter(o[0] + "." + a for c in cases for o in c["ops"] for a in op_omits(o))),
         "forward_tensor_ranges_reaching_past_the_write_position": sum(
             1 for c in cases for o in c["ops"]
             if (o[0] == "rrt" and o[4] and min(o[2], default=99) < o[1] - 1)
